@@ -24,7 +24,6 @@ text in a fresh gin.  Clause labels -> sentence of the property:
 import contextlib
 import importlib
 import io
-import itertools
 import logging
 import os
 import random
@@ -175,7 +174,6 @@ class _World:
       os.makedirs(d)
     self.prefixes = ['', self.dirs[1], self.dirs[2]]
     self.virtual = {1: {}, 2: {}}
-    self.opened = []
     self.loc_order = [0] + [i for i in loc_order if i]      # '' is always first
     self.reader_order = [0] + list(reader_order)
     for i in self.loc_order[1:]:
@@ -185,7 +183,6 @@ class _World:
 
   def _reader(self, j):
     def read(path):
-      self.opened.append([j, path])
       return io.StringIO(self.virtual[j][path])
     return read
 
@@ -215,9 +212,10 @@ class _World:
 def _world(loc_order, reader_order):
   cwd = os.getcwd()
   path, mods = list(sys.path), set(sys.modules)
-  logging.disable(logging.CRITICAL)
   with tempfile.TemporaryDirectory(prefix='c14_') as tmp:
     try:
+      logging.disable(logging.CRITICAL)
+      sys.path[:] = [p for p in path if p not in ('', '.')]   # cwd is not a package root here
       w = _World(os.path.realpath(tmp), loc_order, reader_order)
       os.chdir(w.dirs[0])
       yield w
@@ -261,7 +259,7 @@ def _rand_tree(rng, nfiles, fault=None):
   for n in names:
     for m in rng.sample(mods, rng.choice([0, 0, 1, 2])):
       files[n].insert(rng.randint(0, len(files[n])), ['import', m])
-  files['top.gin' if 'top.gin' in files else names[0]].insert(0, ['macro', 'M', 0])
+  files[names[0]].insert(0, ['macro', 'M', 0])   # every macro used is defined
   files[names[0]].insert(0, ['macro', 'N', 0])
   if fault:
     n = rng.choice(names)
@@ -282,7 +280,7 @@ def cases(tier, rng):
     yield {'mode': 'tree', 'files': files, 'root': 'top.gin', 'entry': entry, 'skip': None,
            'place': {n: [i % 3, i % 2] for i, n in enumerate(sorted(files))},
            'locs': [1, 2], 'readers': [1]}
-  for n in range(260 if not thorough else 5000):
+  for n in range(500 if not thorough else 8000):
     r = rng.random()
     fault = None if r < 0.6 else ('missing' if r < 0.75 else 'unknown')
     names, fs = _rand_tree(rng, rng.randint(1, 5), fault)
@@ -320,7 +318,7 @@ def cases(tier, rng):
   for bits in (0, 4, 8, 12):
     yield {'mode': 'package', 'style': 'c14ns/conf', 'bits': bits, 'via_include': bits == 8}
   # multi-file entry point
-  for n in range(120 if not thorough else 1500):
+  for n in range(200 if not thorough else 3000):
     nf = rng.randint(0, 3)
     yield {'mode': 'multi', 'nfiles': nf, 'seed': rng.randrange(10 ** 6),
            'missing_at': rng.choice([None, None, None] + list(range(nf))),
